@@ -273,5 +273,38 @@ func allProps() []*propInfo {
 				{ID: "C19.5", Doc: "[dep] ack/nack queues feed Ack/Nack", Run: ruleC19_5},
 			},
 		},
+		{
+			ID: "C07",
+			Explanation: "Static necessary conditions of 'filters mean what the filter language says': " +
+				"C07.1 on every path of deliverToSubscription a delivery is created iff the subscription has no filter, or its stored filter string was parsed by this call, evaluated on the message's attributes without error and matched (no cached/global filter object); " +
+				"C07.2/3 (K7) every grammar type has an Evaluate method that reads every field the parser captures (no captured syntax is ignored); C07.4 the literals of the Op / Predicate grammar tags = the declared constants = the cases the evaluator handles; " +
+				"C07.5 the call closure of Evaluate is pure (no package variables, no map iteration, no side effects, only strings.HasPrefix / errors.New / fmt.Errorf outside the module); " +
+				"C07.6 (idiom-bound) leaf shapes: presence bit; presence ∧ ==/!= under the matching operator; presence ∧ strings.HasPrefix(attribute, prefix); XOR with Not; AND/OR chains end with the first deciding term; Condition combines the first term with the matching chain. " +
+				"NOT decided: agreement with the documented Pub/Sub semantics over the infinite input space, boolean laws, precedence as implemented by participle.",
+			Assumptions: []string{"participle builds the parser the struct tags describe", k1Assumption},
+			Rules: []ruleFn{
+				{ID: "C07.1", Doc: "[dom] routing gate, both directions", Run: ruleC07_1},
+				{ID: "C07.2", Doc: "[K7] exhaustiveness; no captured syntax ignored (C07.3)", Run: ruleC07_2_3},
+				{ID: "C07.4", Doc: "[tab] operator tables agree", Run: ruleC07_4},
+				{ID: "C07.5", Doc: "purity of evaluation", Run: ruleC07_5},
+				{ID: "C07.6", Doc: "leaf and combinator shapes (idiom-bound)", Run: ruleC07_6},
+			},
+		},
+		{
+			ID: "C08",
+			Explanation: "Static necessary conditions of 'filter syntax: accept exactly the language, never store anything else, print/parse round-trips': " +
+				"C08.1 subscriptions.filter is written only by CreateSubscription.Execute and the UpdateSubscription handler, and every stored non-nil value is dominated by the nil-error edge of ParseString (or a wrapper whose every nil-error return is) on the same string; " +
+				"C08.2 (K9) the printer writes Name fields only through formatAttrName and Value fields only through strconv.Quote; C08.3 formatAttrName returns a name unquoted only if it is non-empty and every rune is '_' / letter / digit-not-in-first-position (idiom-bound); " +
+				"C08.4 (K7) every grammar type has an AsFilter method that reads every captured field; C08.5 a stored filter that fails to parse skips the subscription instead of failing the publish. " +
+				"NOT decided: 'accepted iff sentence of the documented grammar', parser totality/termination (third-party participle), full print/parse round-trip.",
+			Assumptions: []string{"participle builds the parser the struct tags describe; its lexer's identifier rule is text/scanner's (letter or '_' first, then letters/digits/'_')"},
+			Rules: []ruleFn{
+				{ID: "C08.1", Doc: "[who][dom] validate before persist", Run: ruleC08_1},
+				{ID: "C08.2", Doc: "[K9] printer sanitisation", Run: ruleC08_2},
+				{ID: "C08.3", Doc: "[dom] an unquoted name is a non-empty identifier", Run: ruleC08_3},
+				{ID: "C08.4", Doc: "[K7] printer exhaustive", Run: ruleC08_4},
+				{ID: "C07.1", Doc: "[dom] (shared, C08.5) unparsable stored filter skips", Run: ruleC07_1},
+			},
+		},
 	}
 }
